@@ -1577,6 +1577,18 @@ impl<'a> AstResolver<'a> {
                     self.use_type(state, u, &mut ty.uses, &mut ty.imports, packages, true)?
                 }
                 ast::WorldItem::Type(decl) => {
+                    // a type declaration is an import of the world; it may not reuse
+                    // the name of an earlier import (e.g. `import n: func(); record n { .. }`)
+                    let id = decl.id();
+                    if ty.imports.contains_key(id.string) {
+                        return Err(Error::DuplicateWorldItem {
+                            kind: ExternKind::Import,
+                            name: id.string.to_owned(),
+                            world: world.to_owned(),
+                            span: id.span,
+                        });
+                    }
+
                     self.item_type_decl(state, decl, &mut ty.imports)?;
                 }
                 ast::WorldItem::Import(i) => {
@@ -1888,6 +1900,16 @@ impl<'a> AstResolver<'a> {
                     self.use_type(state, u, &mut ty.uses, &mut ty.exports, packages, false)?
                 }
                 ast::InterfaceItem::Type(decl) => {
+                    // a type declaration may not reuse the name of an earlier function export
+                    let id = decl.id();
+                    if ty.exports.contains_key(id.string) {
+                        return Err(Error::DuplicateInterfaceExport {
+                            name: id.string.to_owned(),
+                            interface_name: name.map(ToOwned::to_owned),
+                            span: id.span,
+                        });
+                    }
+
                     self.item_type_decl(state, decl, &mut ty.exports)?;
                 }
                 ast::InterfaceItem::Export(e) => {
